@@ -14,8 +14,9 @@
   Helper lemmas: VC2/Proofs/StreamSpec.lean.
 -/
 import VC2.Proofs.StreamSpec
+import VC2.Proofs.StreamRules
 namespace VC2.Props.C01
-open VC2 VC2.Model.SymRe VC2.Model.Stream VC2.Model.StreamSpec VC2.Proofs.StreamSpec
+open VC2 VC2.Model.SymRe VC2.Model.Stream VC2.Model.StreamSpec VC2.Proofs.StreamSpec VC2.Model.StreamRules
 
 /-- "assembled from individually valid data units": every unit's parse code is one of the eight of
     the standard and is dispatched as its kind, every unit is at least a parse_info header long, and
@@ -28,6 +29,28 @@ def WellFormed (us : List DUnit) : Prop :=
 theorem validator_accepts_iff_conformant (cfg : Config) (us : List DUnit) (h : WellFormed us) :
     (validate cfg us).1 = .ok ↔ conformant cfg us = true :=
   (run_spec cfg us h.1).1 0 [] h.2
+
+/-- **the rules, one at a time** (read `VC2/Model/StreamRules.lean`: eight small checkers, each with its
+    own memory, none looking at another's): the validator accepts a history of individually valid data
+    units iff (1) every sequence starts with a sequence header and the stream ends after an
+    end-of-sequence, (2) the parse offsets are right, (3) repeated sequence headers are byte-identical
+    and the version admits the profile, (4) every parse code is permitted by profile and version,
+    (5) picture numbers are consecutive with an even first field and whole frames, (6) fragmented pictures
+    are well formed and complete, (7) the major version is the least one needed, (8) the generic and the
+    level ordering patterns match -/
+theorem validator_accepts_iff_all_rules (cfg : Config) (us : List DUnit) (h : WellFormed us) :
+    (validate cfg us).1 = .ok ↔
+      (shapeRule false us = true ∧ offsetsRule none us = true ∧ headersRule none us = true ∧
+       codesRule none us = true ∧ numbersRule none us = true ∧ fragmentsRule cfg none us = true ∧
+       versionRule none us = true ∧ patternsRule cfg none us = true) := by
+  rw [validator_accepts_iff_conformant cfg us h]
+  unfold conformant
+  rw [(VC2.Proofs.StreamRules.spec_eq_rules cfg us).1]
+  unfold allRules
+  simp only [Bool.and_eq_true]
+  constructor
+  · rintro ⟨⟨⟨⟨⟨⟨⟨a, b⟩, c⟩, d⟩, e⟩, f⟩, g⟩, i⟩; exact ⟨a, b, c, d, e, f, g, i⟩
+  · rintro ⟨a, b, c, d, e, f, g, i⟩; exact ⟨⟨⟨⟨⟨⟨⟨a, b⟩, c⟩, d⟩, e⟩, f⟩, g⟩, i⟩
 
 /-- … and every history the rules do not accept is *rejected with a conformance error* (or the
     padding desynchronisation marker), never with another exception — together with
@@ -99,5 +122,11 @@ example : conformant cfg0 [hdr 0, fr0 8 30, frd 8 1 1 0 40, eos 45] = false := b
 example : conformant cfg0 [hdr 0, fr0 8 30, frd 8 1 0 0 40, eos 45] = false := by decide +kernel   -- incomplete picture
 example : conformant cfg0 [hdr 0, pic 7 30] = false := by decide +kernel                            -- no end of sequence
 example : conformant cfg0 [pic 7 0, eos 50] = false := by decide +kernel                            -- no header first
+-- which rule a non-conformant history breaks: skipped number -> (5) only; slices out of order -> (6) only
+example : numbersRule none [hdr 0, pic 7 30, pic 9 50, eos 50] = false ∧
+    fragmentsRule cfg0 none [hdr 0, pic 7 30, pic 9 50, eos 50] = true ∧ offsetsRule none [hdr 0, pic 7 30, pic 9 50, eos 50] = true := by
+  decide +kernel
+example : fragmentsRule cfg0 none [hdr 0, fr0 8 30, frd 8 1 1 0 40, eos 45] = false ∧
+    numbersRule none [hdr 0, fr0 8 30, frd 8 1 1 0 40, eos 45] = true := by decide +kernel
 
 end VC2.Props.C01
